@@ -139,7 +139,14 @@ class TemplateDPADistinguisherMixin(_BaseTemplateAttackDistinguisherMixin):
         return data.shape[1]
 
     def get_template_index(self, data, i):
-        return data[:, i]
+        # Templates are ordered as partitions: find the template of each value, not the template at this position.
+        partitions = _np.asarray(self.partitions)
+        order = _np.argsort(partitions, kind='stable')
+        positions = _np.minimum(_np.searchsorted(partitions[order], data[:, i]), len(partitions) - 1)
+        indexes = order[positions]
+        if _np.any(partitions[indexes] != data[:, i]):
+            raise base.DistinguisherError('Intermediate data for template matching contains values which are not in partitions.')
+        return indexes
 
     @property
     def _distinguisher_str(self):
